@@ -530,6 +530,8 @@ impl<'tcx> Cx<'tcx> {
                         mir::AssertKind::OverflowNeg(_) => "OverflowNeg".to_string(),
                         mir::AssertKind::DivisionByZero(_) => "DivisionByZero".to_string(),
                         mir::AssertKind::RemainderByZero(_) => "RemainderByZero".to_string(),
+                        mir::AssertKind::MisalignedPointerDereference { .. } => "MisalignedPointerDereference".to_string(),
+                        mir::AssertKind::NullPointerDereference => "NullPointerDereference".to_string(),
                         other => format!("{:?}", std::mem::discriminant(other)),
                     };
                     // operands of the assert message (tainted operands are read from these)
